@@ -6,6 +6,19 @@ VERIF = os.path.dirname(HERE)
 ALL = ["C%02d" % i for i in range(1, 19)]
 
 CLAIMS = {
+    "C07": dict(
+        text=("Rocq proof over the model of _get_next_id / ZIDManager.get_next / is_zid with the excluded characters "
+              "and both lexer grammars REGENERATED from /repo on every run: no ZID is returned twice in any history of "
+              "allocations on any dates (restarts are the identity: the manager re-reads its file), every suffix is 2-3 "
+              "characters of the 51-character alphabet without look-alikes, the successor chain has exactly 135,252 "
+              "members, every allocated ZID is accepted by is_zid and by the ZID lexer rule of both grammars while no "
+              "higher-priority token rule matches it. Tied to the code by an exhaustive comparison of all 135,252 "
+              "successor steps, random multi-date histories with restarts, both generated ANTLR lexers and recompilation."),
+        note=("Trusted: Coq kernel incl. vm_compute (finite-domain lemmas over 135,252 suffixes and 36,525 dates); scraper "
+              "and .g4 translator; ANTLR's maximal-munch lexing is tested, not proved; recompilation (enterId) is tested, "
+              "its proof belongs to C01. Known finding: the last suffix zzz is never handed out (135,251 allocations)."),
+        technique="Rocq proof (invariant over allocation histories; finite-domain lemmas by vm_compute; regenerated tables) + exhaustive correspondence",
+        design="§5 C07"),
     "C18": dict(
         text=("Rocq proof: the executable model of expand_file_group_paths is sound and complete for the big-step "
               "reading of the property (paths stay, @groups are replaced in place and in order by their recursively "
